@@ -66,7 +66,12 @@ type Region struct {
 	Alias string
 	// Handed holds every Plaintext slice handed out in a response (same backing arrays).
 	Handed [][]byte
+	// HandedCopies holds private copies of those plaintexts (what the data keys were before the caller wiped them).
+	HandedCopies [][]byte
 }
+
+// Open decrypts a blob produced by this region's key (test-side access to the fake's master key).
+func (r *Region) Open(blob []byte) ([]byte, error) { return r.open(blob) }
 
 // NewCloud creates the named regions.
 func NewCloud(regions ...string) *Cloud {
@@ -112,7 +117,7 @@ func (c *Cloud) Reset() {
 	for _, r := range c.Regions {
 		r.FailGenerate, r.FailEncrypt, r.FailDecrypt, r.WrongPlaintext, r.SlowFailGenerate = false, false, false, false, 0
 		r.IncompleteGenerate, r.SlowEncrypt, r.TimeoutDecrypt = false, 0, false
-		r.Handed = nil
+		r.Handed, r.HandedCopies = nil, nil
 	}
 }
 
@@ -188,6 +193,7 @@ func (r *Region) generate(ctx context.Context, keyID string) (pt, blob []byte, e
 	rand.Read(pt)
 	blob = r.seal(pt)
 	r.Handed = append(r.Handed, pt)
+	r.HandedCopies = append(r.HandedCopies, append([]byte(nil), pt...))
 	r.cloud.log(r.Name, "generate", true)
 	return pt, blob, nil
 }
